@@ -74,6 +74,10 @@ def check(run):
         run.guard("C09.3.no-clock-or-address", cfg, lambda: rule_nondeterminism(run, F, cfg))
         run.guard("C09.4.fixpoint", cfg, lambda: rule_fixpoint(run, F, cfg))
         run.guard("C09.4.fixpoint", cfg + "/no-carry-over", lambda: rule_no_carry(run, F, cfg))
+        from . import C08 as _C08c   # lazy
+        b81 = run.borrow("C08", only=r":restored", why="re-serializing a loaded engine reproduces the buffer only if every stored value is "
+                                    "installed as read (an id recomputed on load differs for fused rules)")
+        run.guard("C09.via.C08.1.state-coverage", cfg, lambda: _C08c.rule_coverage(b81, F, cfg))
         from . import C06 as _C06   # lazy: C06 borrows from this module
         bim = run.borrow("C06", why="the bytes must be a function of the engine's current content: a buffer remembered in a "
                                     "cell inside the engine would be returned again after the content changed")
